@@ -542,6 +542,8 @@ type Endpoint struct {
 	// WriteStall, when set before traffic starts, is asked after every transmission how long the writing
 	// goroutine is held up inside the socket write (fault: blocking send).
 	WriteStall func() time.Duration
+	// WriteErr, when set, may refuse a transmission to dst with an error.
+	WriteErr func(dst *net.UDPAddr) error
 	// CloseErr, when set, is what the first Close returns (the endpoint is closed all the same).
 	CloseErr error
 }
@@ -628,6 +630,12 @@ func (ep *Endpoint) WriteMsgUDP(b, oob []byte, addr *net.UDPAddr) (int, int, err
 	}
 	if addr == nil {
 		return 0, 0, &net.OpError{Op: "write", Net: "udp", Err: errors.New("destination address required")}
+	}
+	if ep.WriteErr != nil {
+		if err := ep.WriteErr(addr); err != nil {
+			// (fault: sendto fails for this destination: unreachable network, egress filter, port 0)
+			return 0, 0, &net.OpError{Op: "write", Net: "udp", Err: err}
+		}
 	}
 	if len(b) > maxUDPPayload {
 		// what a real UDP socket answers (EMSGSIZE)
